@@ -26,6 +26,9 @@ func (c14) NumCases(tier string) int {
 	}
 	return 220
 }
+func (c14) ExhaustiveScope(string) string {
+	return "fault indices: every destination call index 1..N for sequences with N <= 200 destination calls (count in observations: sequences-with-every-index-enumerated); operation sequences themselves are sampled"
+}
 func (c14) Plan(tier string) []mon.RunSpec {
 	if tier == "thorough" {
 		return []mon.RunSpec{{Flavour: "plain"}, {Flavour: "checkptr", Every: 2}, {Flavour: "asan", Every: 25}}
